@@ -274,6 +274,11 @@ def rule_breakers():
             add(tag, 'time at %s on all' % pat)
         add('minus-before-pattern-assign', 'assign t -8:00')
         add('minus-before-string', 'assign t -"a"')
+    # a nested definition after each kind of inner construct of the outer routine
+    for inner in ('set "m" begin stage row 0 end', 'repeat 2 begin on all end', 'if 1 begin on all end',
+                  'set "m" row 0', 'repeat all as l on l', 'print [round 1.5]', 'set "m" begin if 1 stage row 0 end'):
+        out.append(('routine-inside-routine/after-inner-construct',
+                    'define outer begin %s define inner on all end outer' % inner))
     # a break that is not inside a loop *of its own routine*
     out.append(('break-outside-loop/routine-defined-in-loop', 'repeat 2 begin define f begin break end f end'))
     out.append(('break-outside-loop/routine-defined-in-loop', 'repeat 2 begin define f break f end'))
